@@ -1088,6 +1088,20 @@ def complete_execution_has_atc_outcome(result):
         or result.action_to_check_outcome is not None
 
 
+BEFORE_THE_SANDBOX = CANONICAL[:CANONICAL.index(SDS)]    # act parse, symbol validation and pre-sds validation
+
+
+def invalid_case_has_no_effects(result, steps):
+    """(C03) If act parse or the validation of symbols / pre-sds validation of any phase -- up to the last
+    instruction of [cleanup] -- fails: only steps of that kind have run (no sandbox, no main or post-setup step
+    of any phase, nothing of the action to check beyond parse and validation) and the outcome is that failure."""
+    last = forward(steps)[-1]
+    if not (failed(last) and any(last[0] is v for v in BEFORE_THE_SANDBOX)):
+        return True
+    return all(any(s[0] is v for v in BEFORE_THE_SANDBOX) for s in steps) \
+        and not result.has_sds and result.action_to_check_outcome is None and reports(result, last)
+
+
 PROTOCOL = {
     'order: steps run in the documented order (all validation before the sandbox and any main step)':
         lambda trace: in_documented_order(steps_of(trace)),
@@ -1108,6 +1122,8 @@ PROTOCOL = {
         lambda result: failure_is_of_the_kind_of_its_step(result),
     'outcome: success and assertion failure come with the outcome of the action to check':
         lambda result: complete_execution_has_atc_outcome(result),
+    'invalid case (C03): a failing parse / validation step before the sandbox means nothing else has run':
+        lambda result, trace: invalid_case_has_no_effects(result, steps_of(trace)),
 }
 
 M.contract(P_EX + ':_PartialExecutor.execute', params=dict(self=_mk_partial_executor('initial')), inline=True,
@@ -1373,6 +1389,8 @@ M.contract(P_EX + ':execute',
                    lambda result: failure_is_of_the_kind_of_its_step(result),
                'outcome: success and assertion failure come with the outcome of the action to check':
                    lambda result: complete_execution_has_atc_outcome(result),
+               'invalid case (C03): a failing parse / validation step before the sandbox means nothing else has run':
+                   lambda result, trace: invalid_case_has_no_effects(result, steps_of(trace)),
                'the phases of the given test case': lambda test_case, trace:
                all(s[1][1]['phase_contents'] is test_case.cleanup_phase for s in steps_of(trace)
                    if s[0] is S.CLEANUP__VALIDATE_SYMBOLS),
